@@ -4,6 +4,28 @@ import json, os
 ROOT = os.path.dirname(os.path.abspath(__file__))
 
 CLAIMED = {
+ 'C04': dict(
+    category='other',
+    text='Symbolic execution of the real interpreter (FunctionWalker.accept over the AST produced by the real parser) against an independent reference '
+         'evaluator over plain rows and adjacency lists: one condition per program skeleton (33 error-free skeletons covering every construct of the statement) '
+         'with the OAL parameters and all integer/boolean attribute values of the initial population SYMBOLIC and unbounded, every initial link state case-split. '
+         'CrossHair explores every path of interpreter + reference (loop trip counts, where-clause outcomes, comparison results are solver-decided) and reports '
+         '"Confirmed over all paths" when the return value and the final population (instances per class, attribute values, links) agree on all of them.',
+    design_ref='DESIGN.md section 5, C04',
+    note='programs come from a fixed, reviewed skeleton list (not all programs up to a size bound); integer "/" and "%" on negatives and the instance-set operators '
+         'are left out; program text is realised and parsed outside the tracer; 2 A + 2 B initial instances; pn in 0..3 bounds the loops.',
+    technique='bounded symbolic execution of the real code (CrossHair + z3); program data symbolic-through, differential against a reference evaluator'),
+ 'C08': dict(
+    category='other',
+    text='Three layers. Parse: 43 bodies (core skeletons + carrier statements for the remaining keywords incl. events/bridge/transform/send) in UPPER, Capitalised '
+         'and alternating case parse to the same tree as in lower case (strict comparison, keyword-carrying fields lower-cased). Execute: every core skeleton parsed '
+         'from its UPPER-case text (keyword-heavy ones also alternating case) is executed under CrossHair with symbolic data and must equal the reference evaluator, '
+         'i.e. the lower-case semantics. Symbolic spellings: each keyword-carrying AST field (select cardinality, and/or/not/empty/..., boolean literals) of 14 '
+         'skeletons is replaced by a SYMBOLIC string constrained only to the keyword letters in either case, so all 2^len spellings are covered by one condition '
+         '(fields longer than 5 letters only in the thorough tier). Prebuild-level case-insensitivity is checked in the C05/C06 harness.',
+    design_ref='DESIGN.md section 5, C08',
+    note='text realised and parsed by PLY outside the tracer; spelling conditions use fixed data; reference evaluator as in C04.',
+    technique='bounded symbolic execution of the real code (CrossHair + z3); keyword spellings symbolic-through'),
  'C01': dict(
     category='other',
     text='Two engines. (E2) z3 lexical lemmas generated from the current source (the STRING escape/unescape literals of serialize_value / '
